@@ -517,5 +517,120 @@ pub struct Unit0 { }
         }, //# C08+C19.parse_matched_values_accepts_exactly_a_whole_input_expression_and_returns_its_tree
 //@end
 
+// ================================================================== C09: escaped text is inert (theorems over the contracts above)
+// RFC 4515 section 3 escaping as a function: what ldap_escape is checked against (KX-escape: ldap_escape(v) == esc(v) on the
+// real code, bounded Kani; the loop itself is `for (i, &c) in ..enumerate()` over a Cow<str>, outside this Verus)
+pub open spec fn special(b: u8) -> bool { b == 0 || b == 0x28 || b == 0x29 || b == 0x2a || b == 0x5c }
+pub open spec fn hexdig(n: int) -> u8 { if n < 10 { (0x30 + n) as u8 } else { (0x61 + n - 10) as u8 } }
+pub open spec fn esc_byte(b: u8) -> Seq<u8> { if special(b) { seq![0x5cu8, hexdig(b as int / 16), hexdig(b as int % 16)] } else { seq![b] } }
+pub open spec fn esc(v: Seq<u8>) -> Seq<u8> decreases v.len() { if v.len() == 0 { Seq::<u8>::empty() } else { esc_byte(v[0]) + esc(v.skip(1)) } }
+
+// the character classes ldap_escape / dn_escape use (nested helper functions of src/util.rs, lifted)
+//@lift name=needs_escape file=src/util.rs fn=needs_escape
+//@ ret r
+//@ spec
+    ensures r == special(c), //# C09.ldap_escape_escapes_exactly_backslash_asterisk_parentheses_nul
+//@end
+//@lift name=always_escape file=src/util.rs fn=always_escape
+//@ ret r
+//@ spec
+    // RFC 4514 2.4: " + , ; < > \ and NUL (the library also escapes '=')
+    ensures r == (c == 0x22 || c == 0x2b || c == 0x2c || c == 0x3b || c == 0x3c || c == 0x3d || c == 0x3e || c == 0x5c || c == 0), //# C09.dn_escape_special_characters_rfc4514
+//@end
+//@lift name=escape_leading file=src/util.rs fn=escape_leading
+//@ ret r
+//@ spec
+    ensures r == (c == 0x20 || c == 0x23), //# C09.dn_escape_leading_space_or_hash
+//@end
+//@lift name=escape_trailing file=src/util.rs fn=escape_trailing
+//@ ret r
+//@ spec
+    ensures r == (c == 0x20), //# C09.dn_escape_trailing_space
+//@end
+
+pub proof fn lemma_scan_step(i: Seq<u8>, st: Unescaper, acc: Seq<u8>)
+    requires i.len() > 0, value_char(i[0]),
+    ensures ({ let st2 = feed_spec(st, i[0]); let acc2 = if st2 is Value { acc.push(st2->Value_0) } else { acc }; let r = scan(i.skip(1), st2, acc2); scan(i, st, acc) == (1 + r.0, r.1, r.2) }),
+{ }
+// one (escaped) byte at the front of the input, un-escaper in a Value state: consumed entirely, yields that byte
+pub proof fn lemma_scan_esc_byte(b: u8, rest: Seq<u8>, x: u8, acc: Seq<u8>)
+    ensures ({ let r = scan(rest, Unescaper::Value(b), acc.push(b)); scan(esc_byte(b) + rest, Unescaper::Value(x), acc) == (esc_byte(b).len() + r.0, r.1, r.2) }),
+{
+    let i = esc_byte(b) + rest;
+    if special(b) {
+        let h1 = hexdig(b as int / 16); let h2 = hexdig(b as int % 16);
+        assert(i[0] == 0x5c && i[1] == h1 && i[2] == h2);
+        assert(hexval(h1) == Some((b as int / 16) as u8) && hexval(h2) == Some((b as int % 16) as u8));
+        lemma_scan_step(i, Unescaper::Value(x), acc);
+        let i1 = i.skip(1);
+        assert(i1[0] == h1);
+        lemma_scan_step(i1, Unescaper::WantFirst, acc);
+        let i2 = i1.skip(1);
+        assert(i2[0] == h2);
+        lemma_scan_step(i2, Unescaper::WantSecond((b as int / 16) as u8), acc);
+        assert(i2.skip(1) =~= rest);
+        assert(((b as int / 16) * 16 + (b as int % 16)) == b as int);
+    } else {
+        assert(i[0] == b);
+        lemma_scan_step(i, Unescaper::Value(x), acc);
+        assert(i.skip(1) =~= rest);
+    }
+}
+pub proof fn lemma_scan_esc(v: Seq<u8>, rest: Seq<u8>, x: u8, acc: Seq<u8>)
+    requires rest.len() == 0 || !value_char(rest[0]),
+    ensures ({ let r = scan(esc(v) + rest, Unescaper::Value(x), acc); r.0 == esc(v).len() && r.1 is Value && r.2 == acc + v }),
+    decreases v.len(),
+{
+    if v.len() == 0 {
+        assert(esc(v) + rest =~= rest);
+        assert(acc + v =~= acc);
+    } else {
+        let b = v[0];
+        assert(esc(v) + rest =~= esc_byte(b) + (esc(v.skip(1)) + rest));
+        lemma_scan_esc_byte(b, esc(v.skip(1)) + rest, x, acc);
+        lemma_scan_esc(v.skip(1), rest, b, acc.push(b));
+        assert(acc.push(b) + v.skip(1) =~= acc + v);
+    }
+}
+// the value lexer reads esc(v) back as exactly v and stops right after it (for EVERY byte string v)
+pub proof fn theorem_escaped_value_is_inert(v: Seq<u8>, rest: Seq<u8>)
+    requires rest.len() == 0 || !value_char(rest[0]),
+    ensures lx_unescaped(esc(v) + rest) == Some((esc(v).len() as int, v)), //# C09.escaped_value_is_read_back_byte_for_byte_and_ends_where_it_ends
+{
+    reveal(lx_unescaped);
+    lemma_scan_esc(v, rest, 0, Seq::<u8>::empty());
+    assert(Seq::<u8>::empty() + v =~= v);
+}
+// in an equality item: whatever the attribute, `attr=` esc(v) `)` is equalityMatch(attr, v) -- no presence, no substring,
+// nothing of v is taken for filter syntax
+pub proof fn theorem_escaped_value_in_equality_item(i: Seq<u8>, v: Seq<u8>, rest: Seq<u8>)
+    requires
+        lx_attrdesc(i) is Some, 0 <= lx_attrdesc(i)->0 <= i.len(),
+        i.skip(lx_attrdesc(i)->0) == s_eq() + esc(v) + rest,
+        rest.len() == 0 || rest[0] == 0x29,
+    ensures d_eq(i) == Some((lx_attrdesc(i)->0 + 1 + esc(v).len(), t_ctx_c(3, seq![t_os(i.take(lx_attrdesc(i)->0)), t_os(v)]))), //# C09.escaped_value_in_an_equality_item_gives_equality_match_with_exactly_that_value
+{
+    let n = lx_attrdesc(i)->0;
+    let j = i.skip(n);
+    assert(j.subrange(0, 1) =~= s_eq());
+    assert(j.skip(1) =~= esc(v) + rest);
+    theorem_escaped_value_is_inert(v, rest);
+    let k = esc(v).len() as int;
+    assert(j.skip(1).skip(k) =~= rest);
+    // no asterisk follows: the list of star-pieces is empty
+    if rest.len() > 0 { assert(rest.subrange(0, 1)[0] == rest[0]); }
+    assert(d_stars(rest) == Some((0int, Seq::<Seq<u8>>::empty())));
+    assert(!empty_before_last(Seq::<Seq<u8>>::empty()));
+}
+//@canary-begin
+// must FAIL: the theorems' hypotheses are satisfiable and `false` does not follow from them
+pub proof fn theorems_not_vacuous__canary()
+    ensures false
+{
+    let v = seq![0x2au8];
+    theorem_escaped_value_is_inert(v, Seq::<u8>::empty());
+}
+//@canary-end
+
 } // verus!
 fn main() {}
